@@ -797,10 +797,11 @@ ARGS = [
     ([{'$pad': 5000}], {}),
     ([{'$pad': 10000}], {'k': {'$pad': 100}}),
     ([{'$pad': 70000}], {}),
+    (['caf\udce9.txt', '\U0001f600 astral'], {'lone': '\ud800'}),      # lone surrogates (what os.fsdecode gives for non-UTF-8 names) - JSON can carry them
 ]
 BEHS = [
     ['ret', 'R'], ['ret', 0], ['ret', False], ['ret', ''], ['ret', []], ['ret', [1, 'a', None]], ['ret', {'a': {'b': 1}}],
-    ['ret', 'x~~~y'], ['ret', {'value': 1, 'name': 'n'}], ['ret', {'$pad': 5000}], ['ret', {'$pad': 10000}], ['ret', {'$pad': 70000}],
+    ['ret', 'x~~~y'], ['ret', 'r\udce9 \U0001f600'], ['ret', {'value': 1, 'name': 'n'}], ['ret', {'$pad': 5000}], ['ret', {'$pad': 10000}], ['ret', {'$pad': 70000}],
     ['none', None], ['raise', None], ['gen', 'G', 1], ['gen', {'$pad': 5000}, 2], ['nohandler', None],
 ]
 FLAGS = [[s, f, n] for s in (0, 1) for f in (0, 1) for n in (0, 1)]
@@ -1404,7 +1405,7 @@ SER_ARGS = [[], [1], ['a', None, True, 1.5], [[1, [2]], {'a': {'b': [1]}}], ['é
 SER_KWARGS = [{}, {'k': 1}, {'value': 'v', 'name': 'n'}, {'a': [1, {'b': None}], 'z': '~~~'}]
 SER_CHANNELS = [[], ['app'], ['a', 'b'], ['*']]
 SER_NAMES = ['foo', 'foo_bar', 'x']
-SER_VALUES = [None, 0, 1, False, True, '', 's', [], [1, 'a'], {}, {'a': {'b': [1, None]}}, 1.5, 'x~~~y', {'value': 1}, [[], [[]]]]
+SER_VALUES = [None, 0, 1, False, True, '', 's', [], [1, 'a'], {}, {'a': {'b': [1, None]}}, 1.5, 'x~~~y', {'value': 1}, [[], [[]]], 'l\udce9 \U0001f600']
 
 
 def cases_ser(tier):
